@@ -1,10 +1,13 @@
 /-
   C15 — Textual types and programs parse to the objects they denote.
   Property theorems only (model: PS/Model/Parse.lean, notation and ⟦·⟧: PS/Model/TyExpr.lean,
-  helper lemmas: PS/Proofs/ParseType.lean, PS/Proofs/ParseProg.lean).
+  helper lemmas: PS/Proofs/ParseType.lean, PS/Proofs/ParseProg.lean, and for the character
+  level PS/Proofs/ParseTypeChars.lean, PS/Proofs/ParseProgChars.lean).
 -/
 import PS.Proofs.ParseType
 import PS.Proofs.ParseProg
+import PS.Proofs.ParseTypeChars
+import PS.Proofs.ParseProgChars
 namespace PS.C15
 open PS TyExpr
 
@@ -49,6 +52,55 @@ example : exE.wf = true ∧ autoTypeToks exE.toks = .ok exE.denote ∧
       = " 'a list-> ('a-> 'b[int |bool] )->'b [int| bool]optional ".toList :=
   ⟨by decide, C15_type_tokens _ (by decide), by decide +kernel⟩
 
+/-- **Character level, tokenizer.**  For every well-formed expression `e` of the notation and
+    EVERY spacing `sp : Nat → Nat` (any number of blanks, including none, before and after every
+    token, after `(` and `[`, before `)` and `]`, at both ends of the text; `render` itself adds
+    the one blank the notation requires between two adjacent words, e.g. `int list`), the
+    character-level tokenizer of `auto_type` (`strip`, `__matching__`, `__next_token__`, the
+    recursive calls on the text enclosed by parentheses / brackets) cuts the text `render sp e`
+    into exactly the token tree of `e`.  No spacing is excluded: an operator is always followed
+    by the start of an operand (a letter, `'` or `(`, where the infix token stops), never by
+    `|`, `[` or another operator. -/
+theorem C15_type_tokenize (sp : Spacing) (e : TyExpr) (hwf : e.wf = true) :
+    tokenize ((render sp e).length + 1) (render sp e) = .ok e.toks :=
+  tokenize_render sp e hwf
+
+/-- **Character level, end to end.**  `auto_type` (the model `autoTypeText`, with the fuel the
+    driver runs it with) applied to the text of `e` under any spacing returns exactly `⟦e⟧`. -/
+theorem C15_type (sp : Spacing) (e : TyExpr) (hwf : e.wf = true) :
+    autoTypeText (render sp e) = .ok e.denote := by
+  unfold autoTypeText
+  rw [autoType_of_tokenize _ _ _ (C15_type_tokenize sp e hwf)]
+  exact C15_type_tokens e hwf
+
+/-- the character-level machine agrees with the token-level machine on every text that the
+    tokenizer accepts (also outside the notation) -/
+theorem C15_type_machine (d : Nat) (el : Str) (ts : List Tok) (h : tokenize d el = .ok ts) :
+    autoType d el = autoTypeToks ts :=
+  autoType_of_tokenize d el ts h
+
+-- non-vacuity: the nested type above written with odd spacing (no blank around `->`, blanks
+-- inside the parentheses and brackets, between `'b` and `[`, at both ends)
+example : autoTypeText " 'a list-> ('a-> 'b[int |bool] )->'b [int| bool]optional ".toList
+    = .ok exE.denote := by
+  have h := C15_type (fun k => if k % 3 = 0 then 1 else 0) exE (by decide)
+  have e : render (fun k => if k % 3 = 0 then 1 else 0) exE
+      = " 'a list-> ('a-> 'b[int |bool] )->'b [int| bool]optional ".toList := by decide +kernel
+  rw [e] at h; exact h
+-- the same text is really cut into the token tree of `exE` (8 top-level tokens), and no
+-- blank at all is needed where no two words meet: `('a->'b)->'a`
+example : tokenize 99 " 'a list-> ('a-> 'b[int |bool] )->'b [int| bool]optional ".toList
+    = .ok exE.toks ∧ exE.toks.length = 8 := by decide +kernel
+example : render (fun _ => 0) (arrow (arrow (.var "a".toList) (.var "b".toList)) (.var "a".toList))
+      = "('a->'b)->'a".toList ∧
+    autoTypeText "('a->'b)->'a".toList
+      = .ok (TyO.arrow (TyO.arrow (TyO.poly "a".toList) (TyO.poly "b".toList)) (TyO.poly "a".toList)) := by
+  refine ⟨by decide +kernel, ?_⟩
+  have h := C15_type (fun _ => 0) (arrow (arrow (.var "a".toList) (.var "b".toList)) (.var "a".toList)) (by decide)
+  have e : render (fun _ => 0) (arrow (arrow (.var "a".toList) (.var "b".toList)) (.var "a".toList))
+      = "('a->'b)->'a".toList := by decide +kernel
+  rw [e] at h; exact h
+
 /-! ## programs
 
   `goodProg dsl tr consts t` (PS/Model/Parse.lean, decidable, evaluated by the driver on every
@@ -59,12 +111,13 @@ example : exE.wf = true ∧ autoTypeToks exE.toks = .ok exE.denote ∧
   primitive's name and does not start with `var`; a variable has the type given by the request.
 
   Full statement (holds on the model only under the guard, see `finding_duplicate_names`):
-    ∀ t, parseProgram dsl tr consts true (printProg t) = .ok t.
-  Proved here: the word level on characters (`C15_program_word`, `C15_program_leaf`) and the
+    ∀ t, parseProgram dsl tr consts true (printProg t) = .ok t        (`C15_program`).
+  Its parts: the word level on characters (`C15_program_word`, `C15_program_leaf`), the
   structure level (`C15_program_stack`: `parse_stack` rebuilds `t` from its words and the call
-  counts).  Not proved in Lean (compared on every enumerated program by the harness instead):
-  that `split(" ")` cuts `printProg t` into the words of `t` and that the bookkeeping loop
-  computes `calls t`. -/
+  counts), and — in PS/Proofs/ParseProgChars.lean — that `split(" ")` cuts `printProg t` into
+  the words of `t`, that the word parser maps them to `leaves t`, that the bookkeeping loop
+  computes `calls t`, and that the final re-print check succeeds when the constants table maps
+  printed forms to themselves (`goodConsts`). -/
 
 /-- **Word level (characters).**  A leaf satisfying the guard, printed and surrounded by any
     parentheses, is parsed back to itself, with its type, by `parse_program`'s word branch
@@ -115,6 +168,33 @@ theorem C15_program_type (dsl : Dsl) (tr : TyO) (consts : Consts) (t : Prog)
   obtain ⟨L', C', h1⟩ := C15_program_stack dsl tr consts t h fuel hf
   exact ⟨t, L', C', h1, rfl⟩
 
+/-- **Round trip, characters, end to end.**  For every DSL, type request, constants table and
+    every term `t` satisfying the decidable guard `goodProg` (any arity, partial applications,
+    function-typed variables as heads, calls as arguments, valued constants), parsing the
+    printed form of `t` returns `t` itself — hence with the same type: `split(" ")`, the word
+    parser, the call-count bookkeeping loop, `parse_stack` and (when `check` is set and the
+    constants table maps every printed value to itself, `goodConsts`) the final re-print
+    comparison all succeed.  Excluded by the guards: duplicated primitive names (C15-F5),
+    names / printed constants containing blanks or parentheses, primitives called `var<n>`,
+    constants without value. -/
+theorem C15_program (dsl : Dsl) (tr : TyO) (consts : Consts) (chk : Bool) (t : Prog)
+    (h : goodProg dsl tr consts t = true) (hc : chk = true → goodConsts consts = true) :
+    parseProgram dsl tr consts chk (printProg t) = .ok t := by
+  obtain ⟨l, ks⟩ := t
+  by_cases hl : l = .app
+  · subst hl
+    exact parseProgram_print_app dsl tr consts chk ks h hc
+  · have hks : ks = [] := by
+      cases l <;> first | exact absurd rfl hl | (simp [goodProg] at h; exact h.1)
+    subst hks
+    exact (C15_program_leaf dsl tr consts chk l h).1
+
+/-- the parsed program has the type of the original -/
+theorem C15_program_same_type (dsl : Dsl) (tr : TyO) (consts : Consts) (chk : Bool) (t : Prog)
+    (h : goodProg dsl tr consts t = true) (hc : chk = true → goodConsts consts = true) :
+    ∃ q, parseProgram dsl tr consts chk (printProg t) = .ok q ∧ progType q = progType t :=
+  ⟨t, C15_program dsl tr consts chk t h hc, rfl⟩
+
 /-! ### non-vacuity and the finding -/
 
 def tInt : TyO := TyO.prim "int".toList
@@ -137,6 +217,12 @@ example : goodProg exDsl exTr exConsts exProg = true ∧ goodConsts exConsts = t
   decide +kernel
 example : ∃ L' C', parseStack 3 (leaves exProg) (calls exProg) = .ok (exProg, L', C') :=
   C15_program_stack exDsl exTr exConsts exProg (by decide +kernel) 3 (by decide +kernel)
+
+-- the end-to-end round trip on the concrete text, with the re-print check
+example : parseProgram exDsl exTr exConsts true "(app (+ 5) (var0 var1))".toList = .ok exProg := by
+  have h := C15_program exDsl exTr exConsts true exProg (by decide +kernel) (fun _ => by decide +kernel)
+  have e : printProg exProg = "(app (+ 5) (var0 var1))".toList := by decide +kernel
+  rw [e] at h; exact h
 
 /-- **Finding C15-F5** (open).  With two primitives of the same name (what
     `instantiate_polymorphic_types` produces for `id : 'a -> 'a`), the parser resolves the name
